@@ -24,7 +24,7 @@ def opt_read_script(R, data, delim, comment, optstr):
             "dumpx 1", "errloc", "free 1"]
 
 
-def replay_opt_files(exe, recs, optstr, fields, verdict, tag):
+def replay_opt_files(exe, recs, optstr, fields, verdict, tag, pid="C15"):
     cases = []
     for i, r in enumerate(recs):
         cases.append((i, opt_read_script(ROOT + "/o%d" % (i % 16), file_bytes(r["lines"]), r["delim"], r["comment"], optstr)))
@@ -34,7 +34,7 @@ def replay_opt_files(exe, recs, optstr, fields, verdict, tag):
         out = res.get(i)
         text = file_bytes(r["lines"]).decode("latin-1")
         case = {"kind": "optfile", "opt": optstr, "delim": r["delim"], "comment": r["comment"], "lines": r["lines"], "text": text}
-        fp = "C15:%s:%s" % (tag, "-".join(r["kinds"]))
+        fp = "%s:%s:%s" % (pid, tag, "-".join(r["kinds"]))
         if out is None or out["crash"]:
             verdict.violation(fp + ":crash", dict(case, crash=(out or {}).get("crash")), "read with %r crashed on:\n%s\n%s" % (optstr, text, (out or {}).get("crash", "")[:600]))
             continue
